@@ -243,7 +243,9 @@ func (m *ModulusBasic) modExpEven(out, b *Nat, exp *big.Int) {
 
 	result := new(big.Int).Exp(baseBig, exp, modBig)
 	bitlen := (*saferith.Modulus)(m).BitLen()
-	(*saferith.Nat)(out).SetBig(result, bitlen)
+	// saferith's SetBig does not clear limbs the big.Int does not cover (a zero result has none),
+	// so convert into a fresh Nat instead of writing into whatever out held before.
+	out.Set(NewNatFromBig(result, bitlen))
 }
 
 // ModExp sets out = base^exp (mod m).
